@@ -58,6 +58,10 @@ class Wrapc(util.WrapperMixin):
         self.shared_proto_c = []
         # Include files required by wrapper implementations.
         self.capsule_typedef_nodes = OrderedDict()  # [typemap.name] = typemap
+        # Per library, not per process.
+        self.capsule_code = {}
+        self.capsule_order = []
+        self.capsule_include = {}
 
     _default_buf_args = ["arg"]
 
